@@ -409,7 +409,20 @@ pub fn gen_predefined_name_cases(rng: &mut Rng, out: &mut Vec<String>) {
 /// nested calls and indices), probed at every identifier start, at 0:0 / 0:1 and behind every `(` and `,`;
 /// with the specification twins.
 pub fn gen_corner_docs(rng: &mut Rng, which: usize, out: &mut Vec<String>) {
-    let text = match which % 11 {
+    let text = match which % 13 {
+        // identifiers with characters beyond ASCII inside them (the lexer accepts every character whose low byte is an
+        // ASCII letter or digit): byte length, character count and UTF-16 length of the names all differ
+        11 => "proc main() {\n  var n\u{131}: int;\n  var s\u{142}1: int;\n  var v_\u{1F431}: int;\n  n\u{131} := s\u{142}1 + v_\u{1F431};\n  printi(n\u{131});\n}\n".to_string(),
+        // many parenthesised sub-expressions, none nested: more than any small bound on their NUMBER
+        12 => {
+            let n = 33 + 20 * rng.below(6);
+            let mut t = String::from("proc work(ref x: int) {\n");
+            for k in 0..n / 2 { t.push_str(&format!("  x := (x + {}) * 3;\n", k)); }
+            t.push_str("}\nproc main() {\n  var y: int;\n  y := 0;\n");
+            for k in 0..(n - n / 2) { t.push_str(&format!("  y := (y - {}) + (y * 2);\n", k)); }
+            t.push_str("  work(y);\n}\n");
+            t
+        }
         // a type named like the internal name of an anonymous array type would be if it were built from the procedure's
         // and the variable's names (`p_x`, `p.x`-like spellings are not identifiers; `p_x` is)
         10 => "type p_x = array [2] of int;\ntype q_a = array [2] of int;\nproc q(ref a: array [2] of int) { a[0] := 1; }\nproc p() {\n  var x: array [2] of int;\n  var y: p_x;\n  x[0] := 1; y[1] := x[0];\n}\nproc main() { p(); }\n".to_string(),
@@ -518,6 +531,46 @@ pub fn gen_feature_cases(rng: &mut Rng, n: usize, ops: &[&str], broken_pct: usiz
             let from = clo.saturating_sub(3);
             for i in (from..chi.min(p2.toks.len())).take(8) {
                 positions.push(lsp_pos(&text, offs[i] + rng.below(p2.toks[i].text.len().max(1))));
+            }
+        }
+        if !broken && i % 4 == 2 && ops.iter().any(|o| ["REFS", "PREP", "HOV", "GOTO"].contains(o)) {
+            // a second text of the SAME LENGTH with the same tokens at the same byte offsets but a different line
+            // structure (one line feed that ends no comment becomes a blank), asked alternately with the first:
+            // nothing remembered from one text may leak into the answers for the other
+            let bytes = text.as_bytes();
+            let mut line_start = 0;
+            let mut cut = None;
+            for k in 0..bytes.len() {
+                if bytes[k] == b'\n' {
+                    if !text[line_start..k].contains("//") && (k == 0 || bytes[k - 1] != b'\r') && k + 1 < bytes.len() {
+                        cut = Some(k);
+                        break;
+                    }
+                    line_start = k + 1;
+                }
+            }
+            let last_id = (0..p2.toks.len()).rev().find(|&t| p2.toks[t].binding != gen_prog::Binding::None && cut.map_or(false, |c| offs[t] > c));
+            if let (Some(k), Some(t)) = (cut, last_id) {
+                let mut tb = text.clone().into_bytes();
+                tb[k] = b' ';
+                let text_b = String::from_utf8(tb).unwrap();
+                let hb = hex_str(&text_b);
+                let (la, ca) = lsp_pos(&text, offs[t]);
+                let (lb, cb) = lsp_pos(&text_b, offs[t]);
+                for _ in 0..2 {
+                    for (hh, l, c) in [(&h, la, ca), (&hb, lb, cb)] {
+                        for op in ["PREP", "REFS", "HOV"] {
+                            if ops.contains(&op) {
+                                out.push(format!("{} {} {} {}", op, hh, l, c));
+                                out.push(format!("SPEC{} {} {} {}", op, hh, l, c));
+                            }
+                        }
+                        if ops.contains(&"GOTO") {
+                            out.push(format!("GOTO decl {} {} {}", hh, l, c));
+                            out.push(format!("SPECGOTO decl {} {} {}", hh, l, c));
+                        }
+                    }
+                }
             }
         }
         for op in ops {
